@@ -13,13 +13,23 @@ for d in sorted(glob.glob(V+"/seeded/C*-*")):
     r=subprocess.run(["git","apply","--directory",S.lstrip("/"),"--unsafe-paths",d+"/patch.diff"],cwd="/",capture_output=True,text=True)
     if r.returncode!=0:
         r=subprocess.run("cd %s && patch -p1 -s < %s/patch.diff"%(S,d),shell=True,capture_output=True,text=True)
+    base_note=""
     if r.returncode!=0:
-        print(sid,"PATCH DOES NOT APPLY",r.stderr[:200]); meta["detected_by"]="patch does not apply to current /repo"; json.dump(meta,open(d+"/meta.json","w"),indent=1); continue
+        # the patch was written against an older /repo commit and conflicts with a later fix: check it against its base
+        base=meta.get("base_commit","")
+        shutil.rmtree(S,ignore_errors=True); os.makedirs(S)
+        ok=base and subprocess.run("git -C /repo archive %s | tar -x -C %s"%(base,S),shell=True).returncode==0
+        if ok:
+            ok=subprocess.run("cd %s && patch -p1 -s < %s/patch.diff"%(S,d),shell=True,capture_output=True,text=True).returncode==0
+        if not ok:
+            print(sid,"PATCH DOES NOT APPLY",r.stderr[:200]); meta["detected_by"]="patch does not apply to current /repo nor to its base"; json.dump(meta,open(d+"/meta.json","w"),indent=1); continue
+        base_note="patch conflicts with a later fix commit of /repo; checked against its base commit "+base
     shutil.rmtree(SV,ignore_errors=True); os.makedirs(SV); shutil.copy(V+"/known_findings.json",SV)
     out=subprocess.run([V+"/bin/sopverif","check","--property","all","--repo",S,"--verif",SV],capture_output=True,text=True).stdout
     rules=sorted(set(re.findall(r"^\s+(?:violated|undecided) \[(C\d+\.[A-Za-z0-9]+)\]",out,re.M)))
     own=[x for x in rules if x.startswith(meta["property"]+".")]
     meta["detected_by"]={"own_property_rules":own,"all_rules":rules,"checked_at_repo_commit":subprocess.check_output("git -C /repo rev-parse --short HEAD",shell=True,text=True).strip()}
+    if base_note: meta["detected_by"]["note"]=base_note
     json.dump(meta,open(d+"/meta.json","w"),indent=1)
     rows.append((sid,own,[x for x in rules if x not in own]))
     print(sid, "own:",own, "others:",[x for x in rules if x not in own], flush=True)
